@@ -925,4 +925,82 @@ theorem C09_signStable_witness :
       ADrawn.append, aDrawContours, contourShape, sgn, Affine.det]
     intro h; exfalso; revert h; decide +kernel
 
+/-! ### non-vacuity: the hypotheses of the three pipeline theorems are met by concrete families -/
+
+def xA (k : Q) : Glyph :=
+  ⟨"A", 500, 0, [[⟨0, 0, some .line⟩, ⟨100 + k, 0, some .line⟩, ⟨100 + k, 100, some .line⟩, ⟨60, 140, none⟩,
+     ⟨0, 100, some .qcurve⟩]], [], []⟩
+def xB (t : Affine) : Glyph := ⟨"B", 500, 0, [], [⟨"A", t⟩], []⟩
+def xN : Glyph := ⟨".notdef", 500, 0, [[⟨0, 0, some .line⟩, ⟨10, 0, some .line⟩, ⟨10, 10, some .line⟩]], [], []⟩
+def xS0 : GlyphSet := [(".notdef", xN), ("A", xA 0), ("B", xB ⟨1/2, 0, 0, 1/2, 0, 0⟩)]
+def xS1 : GlyphSet := [(".notdef", xN), ("A", xA 8), ("B", xB ⟨1/2, 0, 0, 1/2, 20, 0⟩)]
+/-- a sparse source at 1/2 holding only the composite `B` (its base `A` is missing there) -/
+def xS2 : GlyphSet := [("B", xB ⟨1/2, 0, 0, 1/2, 10, 0⟩)]
+def xSrc : Masters := [xS0, xS1, xS2]
+/-- a TrueType designspace build: default source first, the third source sparse, `.notdef` fallback -/
+def xCfg : Cfg :=
+  ⟨true, some ⟨[0, 1, 1/2], 0⟩, [false, false, true], [], false, false, false, [none, none, none], none, false, true, [], []⟩
+
+theorem xCfg_cu2quOk (b : Option Masters) : cu2quOk xCfg b = true := by cases b <;> rfl
+theorem xCfg_cu2quAlike (b : Option Masters) : cu2quAlike xCfg b = true := by cases b <;> rfl
+
+/-- `C09_sparse` applies to a designspace family with a sparse source; the sparse master comes out with its own `B`, the
+    empty `.notdef` fallback and an empty placeholder for the missing base `A` -/
+example : (match compileFamily xCfg xSrc with
+    | .ok o => namesOf o.final == [[".notdef", "A", "B"], [".notdef", "A", "B"], ["B", ".notdef", "A"]] &&
+               holdsSparse xCfg.sparse (xCfg.inst.map (·.defaultIdx)) xCfg.skip xSrc o.final
+    | .error _ => false) = true := by
+  cases h : compileFamily xCfg xSrc with
+  | error e =>
+    have hok : isOk (compileFamily xCfg xSrc) = true := by decide +kernel
+    rw [h] at hok; cases hok
+  | ok o =>
+    have h1 : namesOf o.final = [[".notdef", "A", "B"], [".notdef", "A", "B"], ["B", ".notdef", "A"]] := by
+      have : (match compileFamily xCfg xSrc with | .ok o => namesOf o.final | .error _ => []) =
+          [[".notdef", "A", "B"], [".notdef", "A", "B"], ["B", ".notdef", "A"]] := by decide +kernel
+      rw [h] at this; exact this
+    have h2 := C09_sparse xCfg xSrc o (by decide +kernel) (by decide +kernel) (by decide +kernel) (by decide +kernel)
+      (by decide +kernel) (xCfg_cu2quOk _) h
+    simp only [h1, h2, beq_self_eq_true, Bool.and_self]
+
+/-- `C09_pipeline_inst_partial` applies to the same family (alike, sign-stable, plain configuration) -/
+example : ∃ o, preprocessTTF xCfg xSrc = .ok o ∧ AlikeB (abG absS) o.final ∧ compatible o.final = true := by
+  cases h : preprocessTTF xCfg xSrc with
+  | error e =>
+    have hok : isOk (preprocessTTF xCfg xSrc) = true := by decide +kernel
+    rw [h] at hok; cases hok
+  | ok o =>
+    exact ⟨o, rfl, C09_pipeline_inst_partial xCfg xSrc o ⟨[0, 1, 1/2], 0⟩ rfl (by decide +kernel) (by decide +kernel)
+      (by decide +kernel) (by decide +kernel) (xCfg_cu2quAlike _) (by simpa [xCfg] using h)⟩
+
+/-- a real interpolation to which `lerpGlyph_alike` applies: half-way between the identity and a scaling by 1/2 -/
+example : abG absS (xB ⟨1, 0, 0, 1, 0, 0⟩) = abG absS (xB ⟨1/2, 0, 0, 1/2, 10, 0⟩) ∧
+    signStableG (xB ⟨1, 0, 0, 1, 0, 0⟩) (xB ⟨1/2, 0, 0, 1/2, 10, 0⟩) = true ∧
+    lerpGlyph (1/2) (xB ⟨1, 0, 0, 1, 0, 0⟩) (xB ⟨1/2, 0, 0, 1/2, 10, 0⟩) = some (xB ⟨3/4, 0, 0, 3/4, 5, 0⟩) := by
+  refine ⟨?_, by decide +kernel, by decide +kernel⟩
+  rw [← absGlyph_iff]; decide +kernel
+
+/-- two full masters whose composite `B` keeps its (equal) 2×2 part: TrueType build without designspace -/
+def yS0 : GlyphSet := [(".notdef", xN), ("A", xA 0), ("B", xB ⟨1/2, 0, 0, 1/2, 0, 0⟩)]
+def yS1 : GlyphSet := [(".notdef", xN), ("A", xA 8), ("B", xB ⟨1/2, 0, 0, 1/2, 20, 0⟩)]
+def yCfg : Cfg := ⟨true, none, [false, false], [], false, false, true, [none, none], none, false, false, [], []⟩
+
+/-- `C09_twoByTwo` applies (and the composite survives, so the statement is not empty) -/
+example : (match compileFamily yCfg [yS0, yS1] with
+    | .ok o => twoByTwosOf o.final "B" == [[((1:Q)/2, (0:Q), (0:Q), (1:Q)/2)], [(1/2, 0, 0, 1/2)]] && holdsTwoByTwo [yS0, yS1] o.final
+    | .error _ => false) = true := by
+  cases h : compileFamily yCfg [yS0, yS1] with
+  | error e =>
+    have hok : isOk (compileFamily yCfg [yS0, yS1]) = true := by decide +kernel
+    rw [h] at hok; cases hok
+  | ok o =>
+    have h1 : twoByTwosOf o.final "B" = [[((1:Q)/2, (0:Q), (0:Q), (1:Q)/2)], [(1/2, 0, 0, 1/2)]] := by
+      have : (match compileFamily yCfg [yS0, yS1] with | .ok o => twoByTwosOf o.final "B" | .error _ => []) =
+          [[((1:Q)/2, (0:Q), (0:Q), (1:Q)/2)], [(1/2, 0, 0, 1/2)]] := by decide +kernel
+      rw [h] at this; exact this
+    have hcu : cu2quOk yCfg o.beforeCu2qu = true := by cases o.beforeCu2qu <;> rfl
+    have h2 := C09_twoByTwo yCfg [yS0, yS1] o rfl rfl (by decide +kernel) (by decide +kernel) (by decide +kernel)
+      (by decide +kernel) hcu (by decide +kernel) h
+    simp only [h1, h2, beq_self_eq_true, Bool.and_self]
+
 end Ufo2ft.C09
